@@ -12,6 +12,8 @@ tools/baseline.py; DESIGN.md 11.5), and the thorough tier of every property requ
   mirror     `a < b` -> `b > a` for simple operands, and `if c: A else: B` -> `if not c: B else: A`
   params     the positional parameters of every private function or method (`_name`) that is never called with keyword arguments are
              renamed (`order` -> `p_order`)
+  attrs      every private attribute stored on self (`self._x = ...`) whose name is not also a function, class-level or string-accessed
+             name is renamed throughout the package (`._x` -> `._x_attr`)
   augexpand  `x op= e` -> `x = x op e` where the target is an immutable scalar (the pinned table sa/known_shapes.json says which)
 """
 from __future__ import annotations
@@ -25,7 +27,7 @@ import random
 from typing import Set
 
 FuncT = (ast.FunctionDef, ast.AsyncFunctionDef)
-MODES = ("reformat", "rename", "reorder", "mirror", "augexpand", "params")
+MODES = ("reformat", "rename", "reorder", "mirror", "augexpand", "params", "attrs")
 
 
 def _rename_function(fn: ast.AST, rnd: random.Random, prob: float) -> int:
@@ -141,6 +143,41 @@ def _rename_params(trees) -> int:
     return count
 
 
+def _rename_attrs(trees, root: str) -> int:
+    import re
+    stored, taken, strings = set(), set(), set()
+    tests_dir = os.path.join(root, "tests") if os.path.isdir(os.path.join(root, "tests")) else "/repo/tests"
+    for tp in glob.glob(os.path.join(tests_dir, "**", "*.py"), recursive=True):   # the pinned tests read some private attributes
+        with open(tp) as f:
+            taken |= set(re.findall(r"\b_[A-Za-z0-9_]+\b", f.read()))
+    for t in trees.values():
+        for n in ast.walk(t):
+            if isinstance(n, ast.Attribute):
+                if (isinstance(n.ctx, ast.Store) and isinstance(n.value, ast.Name) and n.value.id == "self" and n.attr.startswith("_")
+                        and not n.attr.startswith("__")):
+                    stored.add(n.attr)
+            elif isinstance(n, FuncT + (ast.ClassDef,)):
+                taken.add(n.name)
+            elif isinstance(n, ast.ClassDef):
+                pass
+            elif isinstance(n, ast.Constant) and isinstance(n.value, str):
+                strings.add(n.value)
+            elif isinstance(n, ast.keyword) and n.arg:
+                taken.add(n.arg)
+        for c in ast.walk(t):
+            if isinstance(c, ast.ClassDef):
+                for st in c.body:
+                    for x in ast.walk(st) if isinstance(st, (ast.Assign, ast.AnnAssign)) else []:
+                        if isinstance(x, ast.Name):
+                            taken.add(x.id)
+    mp = {a: a + "_attr" for a in stored - taken - strings}
+    for t in trees.values():
+        for n in ast.walk(t):
+            if isinstance(n, ast.Attribute) and n.attr in mp:
+                n.attr = mp[n.attr]
+    return len(mp)
+
+
 def rewrite(root: str, mode: str, seed: int = 1, prob: float = 0.6) -> int:
     assert mode in MODES, mode
     rnd = random.Random(seed)
@@ -150,12 +187,12 @@ def rewrite(root: str, mode: str, seed: int = 1, prob: float = 0.6) -> int:
         with open(os.path.join(os.path.dirname(os.path.abspath(__file__)), "known_shapes.json")) as f:
             safe = {x for v in json.load(f).values() for x in v.get("augassign", [])}
     paths = sorted(glob.glob(os.path.join(root, "basana", "**", "*.py"), recursive=True))
-    if mode == "params":
+    if mode in ("params", "attrs"):
         trees = {}
         for path in paths:
             with open(path) as f:
                 trees[path] = ast.parse(f.read())
-        count = _rename_params(trees)
+        count = _rename_params(trees) if mode == "params" else _rename_attrs(trees, root)
         for path, tree in trees.items():
             with open(path, "w") as f:
                 f.write(ast.unparse(tree) + "\n")
